@@ -13,14 +13,16 @@ def rand_address(rng, mode=None):
     is29 = '29' in mode
     idmax = 0x1FFFFFFF if is29 else 0x7FF
     a = {'mode': mode}
+    # boundary values (0x00, 0xFF, identifier 0 / maximum) are drawn far more often than a uniform choice would
+    byte = lambda: rng.choice([0x00, 0x00, 0xFF, rng.randint(0, 255), rng.randint(0, 255), rng.randint(0, 255), rng.randint(0, 255)])
     if mode in ('Normal_11bits', 'Normal_29bits', 'Extended_11bits', 'Extended_29bits', 'Mixed_11bits'):
-        a['txid'] = rng.randint(0, idmax)
+        a['txid'] = rng.choice([0, idmax, rng.randint(0, idmax), rng.randint(0, idmax), rng.randint(0, idmax), rng.randint(0, idmax)])
         a['rxid'] = rng.choice([x for x in [rng.randint(0, idmax), a['txid'] ^ (1 << rng.randrange(11))] if x != a['txid'] and 0 <= x <= idmax] or [(a['txid'] + 1) % (idmax + 1)])
     if mode in ('NormalFixed_29bits', 'Extended_11bits', 'Extended_29bits', 'Mixed_29bits'):
-        a['target_address'] = rng.randint(0, 255)
-        a['source_address'] = rng.randint(0, 255)
+        a['target_address'] = byte()
+        a['source_address'] = byte()
     if mode in ('Mixed_11bits', 'Mixed_29bits'):
-        a['address_extension'] = rng.randint(0, 255)
+        a['address_extension'] = byte()
     if mode in ('NormalFixed_29bits', 'Mixed_29bits') and rng.random() < 0.5:
         a['physical_id'] = rng.randint(0, 0x1FFFFFFF)
         a['functional_id'] = rng.randint(0, 0x1FFFFFFF)
